@@ -326,9 +326,16 @@ def asm_case(item):
             self.log.append(("close", "ok"))
 
     W.SEAMS.reset(seed, sc.name)
-    script = W.Script(None, regime_fn(rname) if rname else None)
+    select_mode = rname == "select"
+    script = W.Script(None, regime_fn(rname) if rname and not select_mode
+                      else None)
     w = W.World(script, recv_alts=NRECV, send_alts=NSEND)
     pair = W.Pair(w)
+
+    def readable(m):
+        # what select() would say about the transport
+        sock = w.csock if m.who == "C" else w.ssock
+        return bool(sock.rx.buf) or sock.rx.eof
     W.SEAMS.current = "C"
     cm = Mach("C", pair.c, [("hs", sc.client_gen(pair.c)),
                             ("write", progs.MSG1),
@@ -376,14 +383,14 @@ def asm_case(item):
                             m.log.append((st[2], m.rbuf))
                             m.plan = [("close",)]
                             changed = True
-                        else:
+                        elif not select_mode or readable(m):
                             m.inReadEvent()
                     elif st[0] == "read-eof":
                         if m.eof:
                             m.log.append(("read-eof", m.rbuf))
                             m.plan.pop(0)
                             changed = True
-                        else:
+                        elif not select_mode or readable(m):
                             m.inReadEvent()
                     elif st[0] == "close":
                         m.plan.pop(0)
@@ -650,6 +657,9 @@ def run(res, tier, seed):
     # AsyncStateMachine
     items = [(i, tier, seed, r) for i in range(len(scs))
              for r in (None, "recv1", "blockfirst", "halves")]
+    # an event loop that offers a read event only when select() reports the
+    # socket readable (what TLSAsyncDispatcherMixIn does)
+    items += [(i, tier, seed, "select") for i in range(len(scs))]
     items += [(i, tier, seed, r, "big") for i in range(len(scs))
               for r in (None, "halves") if tier == "thorough" or i % 3 == 0]
     na = 0
@@ -658,8 +668,13 @@ def run(res, tier, seed):
         res.count()
         res.outcome(("asm", rname, bool(d)))
         if d:
+            stall = any(x[1] == "outcome" and "stall" in str(x[3])
+                        for x in d)
             res.violation({"part": "asyncstatemachine", "scenario": name,
-                           "regime": rname}, {"diff": d[:3]},
+                           "regime": rname,
+                           "kind": "stall" if stall else "other"},
+                          {"diff": [[str(y)[:200] for y in x]
+                                    for x in d[:3]]},
                           {"part": "asyncstatemachine", "scenario": name,
                            "regime": rname})
     res.section("asyncstatemachine", executions=na)
